@@ -834,6 +834,10 @@ fn draw_obj(p: &mut Prng, types: &[Ty]) -> ObjSpec {
     if ty == Ty::Block {
         tx.max_blob = tx.max_blob.min(300);
     }
+    if ty == Ty::Script && p.chance(1, 200) {
+        // a script at the very size limit of the decoders
+        tx.max_blob = 4_000_000;
+    }
     let pset = if matches!(ty, Ty::Pset | Ty::PsetGlobal | Ty::PsetInput | Ty::PsetOutput) { Some(crate::psetgen::PsetSpec::draw(p)) } else { None };
     // one object in eight is (or is cut out of) one of the repository's own vectors
     let n = p.u32();
